@@ -129,6 +129,61 @@ def corpus_layouts(ctx, prop, want):
         stats["getter_names_checked"] = len(seen)
 
 
+GEN_SUBS = [  # (name, return type, parameters, body): parameters forwarded to macros / sub-routines, used repeatedly, unused
+    ("vt_macro_twice", "uint32_t", ["uint32_t v"], "{ return bswap32(v) + bswap32(v); }"),
+    ("vt_sub_and_use", "uint32_t", ["uint32_t v"], "{ return clz32(v) + (v >> 1); }"),
+    ("vt_sub_twice", "uint32_t", ["uint32_t v"], "{ return clz32(v) + clo32(v); }"),
+    ("vt_param_thrice", "int32_t", ["int32_t a", "int32_t b"], "{ return a + a + a + b; }"),
+    ("vt_param_unused", "int32_t", ["int32_t a", "int32_t b"], "{ return a; }"),
+    ("vt_deposit", "uint32_t", ["uint32_t addr"], "{ return deposit32(addr, 0, 16, revbit16(addr)); }"),
+    ("vt_cast_arg", "uint64_t", ["uint32_t v"], "{ return clz64(v) + v; }"),
+    ("vt_local", "int32_t", ["int32_t a"], "{ int32_t t = a; t = t + a; return t + extract32(a, 0, 8); }"),
+    ("vt_branch", "int32_t", ["int32_t a", "int32_t b"], "{ int32_t r = b; if (a > b) { r = a; } return r + a; }"),
+    ("vt_ext", "int32_t", ["HexInsnPktBundle *bundle", "int32_t f", "int32_t v"], "{ set_usr_field(bundle, f, v); return get_usr_field(bundle, f) + v; }"),
+]
+
+
+def subroutines(ctx, prop, want):
+    """wf / linear of every bundled sub-routine body and of generated sub-routines (parameters are BORROWED pures: at most
+    one use without DUP) -- the corpus and the generated instruction behaviours have only external parameters"""
+    fails, stats = ctx["fails"], ctx["stats"]
+    sig = k2.run_python([], want_sig=True)["signatures"]
+    cases, where = [], {}
+    for s_ in sig["subs"]:
+        params = [(pn, (not t["ext"]) and (not t["void"])) for pn, t in zip(s_["pnames"], s_["params"])]
+        try:
+            b = iltext.parse_body(s_["body"], params)
+            cases.append((("bundled", s_["name"]), b))
+            if b.invalid_names and "wf" in want:
+                fails.append(("sub", s_["name"], ["malformed-text: invalid C identifiers " + ", ".join(b.invalid_names)], {"flags": 0}))
+        except iltext.ILParseError as e:
+            if "wf" in want:
+                fails.append(("sub", "bundled sub-routine " + s_["name"], ["malformed-text: " + str(e)], {"flags": 0}))
+    hist = [{"id": fmt, "steps": [{"entry": "sub", "fmt": fmt, "name": n, "ret": r, "params": ps, "code": code} for n, r, ps, code in GEN_SUBS]} for fmt in FORMATS]
+    for h in k2.run_histories(hist):
+        for (n, r, ps, code), st in zip(GEN_SUBS, h["steps"]):
+            if not st.get("ok"):
+                continue
+            params = [(p_.split()[-1].lstrip("*"), "*" not in p_) for p_ in ps]
+            try:
+                b = iltext.parse_body(st["text"], params)
+                cases.append(((h["id"], f"{r} {n}({', '.join(ps)}) {code}"), b))
+            except iltext.ILParseError as e:
+                if "wf" in want:
+                    fails.append(("sub", f"{n} {code}", ["malformed-text: " + str(e)], {"flags": 0}))
+    pr = diffrun.probe_light(prop + "_subs", cases)
+    n = 0
+    for key, v in pr.items():
+        n += 1
+        if v is None:
+            continue
+        if "wf" in want and not v["wf"]:
+            fails.append((f"sub:{key[0]}", key[1], ["wf (sub-routine body)"], {"flags": 0}))
+        if "linear" in want and not v["linear"]:
+            fails.append((f"sub:{key[0]}", key[1], ["linear (sub-routine body)"], {"flags": 0}))
+    stats["subroutine_bodies_checked"] = n
+
+
 def make_spec(prop, oracles, want, theorems, note):
     def extra(ctx):
         # generated programs: layout equality / acceptance in both layouts
@@ -150,6 +205,8 @@ def make_spec(prop, oracles, want, theorems, note):
                 if v[0] != 0 and allp[int(i)] not in ctx["known_codes"]:
                     fails.append((f"{FORMATS[0]}:{i}", allp[int(i)], [f"layouts denote different effects (code {v[0]})"], {"flags": 0}))
         corpus_layouts(ctx, prop, want)
+        if "wf" in want or "linear" in want:
+            subroutines(ctx, prop, want)
 
     return semprop.Spec(prop=prop, programs=programs, oracles=oracles, formats=FORMATS, mask=0, extra=extra, theorems=theorems, note=note,
                         fresh_counter=True)
